@@ -164,6 +164,21 @@ def classify_enc(case, ea, eb):
     """STRICT encodes group children in structure order, TOLERANT in insertion order (documented behaviour): the mechanism
     is recognised only when both encodings hold the same segment lines and the TOLERANT one kept the input order"""
     la, lb = ea.split('\r'), eb.split('\r')
+    if sorted(la) == sorted(lb) and la != lb and case.get('kind') == 'message':
+        # the documented difference concerns the children the structure lists; runs of adjacent out-of-structure (Z) lines
+        # of the input keep their relative order under both levels
+        src = [l for l in case['text'].split('\r') if l]
+        i = 0
+        while i < len(src):
+            j = i
+            while j < len(src) and src[j][:1] == 'Z':
+                j += 1
+            run = src[i:j]
+            if len(run) >= 2 and len(set(run)) == len(run):
+                pos = [la.index(l) for l in run if l in la]
+                if pos != sorted(pos):
+                    return 'strict-reorders-out-of-structure-segments'
+            i = max(j, i + 1)
     if sorted(la) == sorted(lb) and la != lb:
         if case.get('kind') == 'message' and lb != [l for l in case['text'].split('\r') if l]:
             return 'encoding-differs-by-level'
@@ -213,6 +228,10 @@ def run_messages(spec, rec):
                 out.append(structref.conforming_segment_line(v, l.seg, rng.choice(['required', 'required', 'all'])))
         if rng.random() < 0.3:
             out.insert(rng.randint(1, len(out)), rng.choice(['ZZ1|1', out[-1], 'NTE|1|x' if 'NTE' in tables.segments(v) else 'ZZ2|2']))
+        elif rng.random() < 0.2:
+            # locally defined segments of two names, interleaved: they keep the order they were written in
+            k = rng.randint(1, len(out))
+            out[k:k] = ['ZA1|1', 'ZB1|2', 'ZA1|3']
         text = '\r'.join(out)
         for fg in (True, False):
             case = {'kind': 'message', 'version': v, 'text': text, 'find_groups': fg}
